@@ -15,13 +15,56 @@ pub struct Lookup {
 }
 
 fn check(c: &Lookup) -> CaseReport {
-    let db = shared_db();
+    check_on(shared_db(), c, "in-memory")
+}
+
+/// Private data directory of this process for the on-disk sessions.
+fn disk_dir() -> std::path::PathBuf {
+    std::path::PathBuf::from(format!("{}/build/xdg/C16-{}", crate::runner::verif_root(), std::process::id()))
+}
+
+/// A handle on the already built on-disk index, one per thread (a reopened session: it must not rebuild).
+fn reopened_db() -> &'static anything::Db {
+    thread_local! {
+        static DB: &'static anything::Db = Box::leak(Box::new(anything::Db::open().expect("reopening the on-disk index")));
+    }
+    DB.with(|d| *d)
+}
+
+/// The constant as the library decodes it straight from the shipped file (no index in between).
+fn direct_constant(words: &[String]) -> Option<anything::Constant> {
+    crate::facts::typed_constants().iter().find(|c| c.tokens.len() == words.len() && c.tokens.iter().zip(words.iter()).all(|(a, b)| a.as_ref() == b.as_str())).cloned()
+}
+
+/// Differential between the two decode paths: file -> Constant, and file -> index payload -> Constant.
+fn differential(db: &anything::Db, words: &[String], q: &str) -> Option<(String, String)> {
+    let direct = direct_constant(words)?;
+    let parsed = anything::parse(q).ok()?;
+    let mut descs = Vec::new();
+    let n = anything::query(&parsed, db, anything::Options::default().describe(), &mut descs).count();
+    if n != 1 || descs.len() != 1 {
+        return None;
+    }
+    let anything::Description::Constant(_, c) = &descs[0];
+    if c.tokens != direct.tokens {
+        return None; // another constant carrying the same words: judged by the word clauses, not here
+    }
+    if c.unit != direct.unit || c.unit.to_string() != direct.unit.to_string() || c.unit.display(true).to_string() != direct.unit.display(true).to_string() {
+        return Some(("indexed-constant-differs-from-file:unit".into(), format!("through the index `{}` ({:?}), straight from the file `{}` ({:?}); equal: {}", c.unit, crate::tool::mirror(&c.unit), direct.unit, crate::tool::mirror(&direct.unit), c.unit == direct.unit)));
+    }
+    if c.value != direct.value || c.description != direct.description || c.source != direct.source {
+        return Some(("indexed-constant-differs-from-file".into(), format!("{:?} vs {:?}", c, direct)));
+    }
+    None
+}
+
+fn check_on(db: &anything::Db, c: &Lookup, session: &'static str) -> CaseReport {
     let q = c.words.join(" ");
     let run = match run_full(db, &q, true) {
         Ok(r) => r,
         Err(p) => return CaseReport::fail(&q, "panic", json!({"query": q, "panic": p})),
     };
-    let fail = |sig: &str, why: String| CaseReport::fail(&q, sig, json!({"query": q, "why": why, "results": results_json(&run.results)}));
+    let fail = |sig: &str, why: String| CaseReport::fail(format!("{} [{}]", q, session), sig, json!({"query": q, "session": session, "why": why, "results": results_json(&run.results)}));
     let val = match run.results.as_slice() {
         [R::Ok(v)] => v,
         [R::Err { msg, .. }] => return fail("own-words-not-found", msg.clone()),
@@ -51,7 +94,12 @@ fn check(c: &Lookup) -> CaseReport {
     if val.value != d.value || val.unit != d.unit {
         return fail("result-differs-from-constant", format!("result {} [{}] vs constant {} {:?}", val.value, val.unit_text, d.value, d.unit));
     }
-    let mut classes = vec![];
+    if !c.permuted {
+        if let Some((sig, why)) = differential(db, &c.words, &q) {
+            return fail(&sig, why);
+        }
+    }
+    let mut classes = vec![session];
     if c.permuted {
         classes.push("permuted");
     }
@@ -61,7 +109,7 @@ fn check(c: &Lookup) -> CaseReport {
     if c.words.len() >= 3 {
         classes.push(">=3-words");
     }
-    CaseReport::pass(&q, c.words.len() >= 2, classes)
+    CaseReport::pass(format!("{} [{}]", q, session), c.words.len() >= 2, classes)
 }
 
 fn mix(a: u64, b: u64) -> u64 {
@@ -71,7 +119,7 @@ fn mix(a: u64, b: u64) -> u64 {
 }
 
 pub fn run_check(ctx: &Ctx) {
-    ctx.set_rule("every constant of the shipped database (decoded by the harness from db/*.bin.gz) whose words are typable ([A-Za-z0-9°']+, first word not starting with a digit, no word `to`) is asked for by exactly its words joined by blanks (thorough: also every rotation, the reversal and 5 pseudo-random permutations); oracle: one value, one description whose phrase is the query, the returned constant carries every asked word, has a description, a resolvable source, and its value and unit are the result; non-trivial = at least two words; distinct by query text");
+    ctx.set_rule("every constant of the shipped database (decoded by the harness from db/*.bin.gz) whose words are typable ([A-Za-z0-9°']+, first word not starting with a digit, no word `to`) is asked for by exactly its words joined by blanks (thorough: also every rotation, the reversal and 5 pseudo-random permutations); each against an in-memory database, the on-disk session that builds the index and reopened on-disk sessions; oracle: one value, one description whose phrase is the query, the returned constant carries every asked word, has a description, a resolvable source, its value and unit are the result, and it equals (unit ==, unit text, value, description, source) the constant the library decodes straight from the shipped file; non-trivial = at least two words; distinct by query text");
     let f = facts();
     if !f.undecodable.is_empty() {
         ctx.record_case("decode", CaseReport::fail("decode", "shipped-constant-does-not-decode", json!(f.undecodable)), json!({"undecodable": f.undecodable}));
@@ -83,8 +131,24 @@ pub fn run_check(ctx: &Ctx) {
     ctx.put("constants", json!(f.all.len()));
     ctx.put("typable_constants", json!(typ.len()));
     ctx.run_enum("own-words", typ.len() as u64, |i| Some(Lookup { words: typ[i as usize].tokens.clone(), permuted: false }), check, |c| to_json(c));
+    // the same enumeration against the on-disk database: the session that builds it, then reopened sessions
+    let dir = disk_dir();
+    let _ = std::fs::remove_dir_all(&dir);
+    std::fs::create_dir_all(&dir).expect("private data dir");
+    std::env::set_var("XDG_DATA_HOME", &dir);
+    match anything::Db::open() {
+        Ok(first) => {
+            for t in &typ {
+                let l = Lookup { words: t.tokens.clone(), permuted: false };
+                ctx.record_case("own-words(on-disk, first start)", check_on(&first, &l, "on-disk-first-start"), to_json(&l));
+            }
+            drop(first);
+            ctx.run_enum("own-words(on-disk, reopened)", typ.len() as u64, |i| Some(Lookup { words: typ[i as usize].tokens.clone(), permuted: false }), |c| check_on(reopened_db(), c, "on-disk-reopened"), |c| to_json(c));
+        }
+        Err(e) => ctx.record_case("own-words(on-disk, first start)", CaseReport::fail("Db::open", "start-fails", json!(format!("{:#}", e))), json!({"open": "failed"})),
+    }
     ctx.exhaustive.store(true, std::sync::atomic::Ordering::Relaxed);
-    ctx.put("exhaustive_scope", json!("all typable constants, own word order"));
+    ctx.put("exhaustive_scope", json!("all typable constants, own word order, against an in-memory database, the on-disk session that builds the index and reopened on-disk sessions"));
     let per = ctx.tier.pick(12u64, 40);
     ctx.run_enum(
         "permuted-words",
@@ -116,6 +180,7 @@ pub fn run_check(ctx: &Ctx) {
         check,
         |c| to_json(c),
     );
+    let _ = std::fs::remove_dir_all(disk_dir());
 }
 
 pub fn replay(ctx: &Ctx, case: &Value) {
